@@ -191,4 +191,6 @@ def build(tier, seed):
                              "covariances (with / without Bessel), counts, distribution, counts<->bitstrings, parity tallies equal their definitions", timeout=900))
     obs.append(vprop.enum_ob("C10.wide.enum", F_OPS[:3], lambda: range(3), _check_wide,
                              "bounded: 14-qubit registers with multi-digit qubit indices and look-alike supports; repeated queries after in-place edits follow the measurement set", exhaustive=False))
+    from vfw import lean
+    obs.append(lean.prelude_ob('C10', 'parity of a symmetric difference'))
     return obs
